@@ -91,7 +91,7 @@ def run(tier):
                                         env={"GORACE": "log_path=%s halt_on_error=0 exitcode=0" % rlog}, timeout=3000))
     races = racelib.parse_reports(rlog)
     for sig, cnt in sorted(races.items()):
-        outcome.report(sig, dict(family="race", signature=sig, count=cnt, note="Go race detector report while running 'verifdrv-race ctree conc'"))
+        outcome.report(sig, dict(family="race", signature=sig, count=cnt, report=racelib.REPORTS.get(sig, ""), note="Go race detector report while running 'verifdrv-race ctree conc'"))
     vlib.log("[race] %d histories under the race detector, %d distinct report signature(s)" % (dr.get("histories", 0), len(races)))
 
     total, distinct = vlib.distinct_lines(files, trivial=lambda l: b'"reset"' in l)
